@@ -10,16 +10,27 @@ from common import L, ModelRaise, exc_kind
 
 RULE = ("convex solids from gen.convex_solid (C01 generator: all kinds, rigid motion, offset <=10 diameters, scale "
         "1e-3..1e3) + every tabulated solid (random placement) + special solids (boxes, cubes, tangential/non-tangential "
-        "prisms, antiprisms, pyramids, dipyramids, non-cospherical dipyramid) + non-convex polyhedra (dented / edge-flipped "
+        "prisms, antiprisms, pyramids, dipyramids, non-cospherical dipyramid) + the same special solids / polygons under exact "
+        "power-of-two scalings 2^-14..2^14 (solids) and 2^-26..2^26 (polygons) + non-convex polyhedra (dented / edge-flipped "
         "simplicial hulls) for the vertex-based balls; polygons from gen.polygon2d (C04 generator) + regular n-gons, "
         "rectangles, squares, kites, rhombi, isosceles trapezoids, cyclic and tangential random polygons, triangles, "
         "embedded in random planes, scaled 1e-3..1e3, both orientations / explicit / opposing normal; circles, ellipses, "
-        "spheres, ellipsoids with log-uniform semi-axes incl. ties; forced miniball failures (0,1,2,3,9,10 LinAlgErrors). "
-        "distinct = distinct case dicts; non-trivial = a shape with >= 3 (polygon) / 4 (solid) vertices or a curved shape")
+        "spheres, ellipsoids with log-uniform semi-axes incl. ties; forced miniball failures (0,1,2,3,9,10 LinAlgErrors); "
+        "seed sweeps: cospherical vertex sets (prisms, boxes, antiprisms, Platonic/Archimedean solids, regular / cyclic "
+        "polygons, rectangles; generic prisms over polygons inscribed in an ellipse; unrotated, quarter-turned, randomly rotated) each under 40 (quick) / 100 (thorough) states of "
+        "Python's global `random`. distinct = distinct case dicts; non-trivial = a shape with >= 3 (polygon) / 4 (solid) "
+        "vertices or a curved shape")
 ASSUMPTIONS = [
-    "np.linalg.lstsq, miniball.get_bounding_ball, rowan.random.rand are inputs of the model; per run: lstsq normal "
-    "equations |A^T(Ax-b)| <= 1e-9*scale and resids == |Ax-b|^2 (exact over Q), miniball ball contains its points and has a "
-    "support certificate (lambda >= 0 solved by NNLS, verified exactly over Q, tolerance 1e-6 relative), rotations unit",
+    "np.linalg.lstsq, miniball.get_bounding_ball, scipy.optimize.nnls, rowan.random.rand are inputs of the model. lstsq contract per call as a "
+    "certificate: the driver solves the normal equations exactly over Q and checks them with lstsqCert (Lean: sound and "
+    "complete for 'least-squares minimiser', also over Q); LAPACK's answer must exceed the exact minimum by <= 1e-16*scale^2 "
+    "and resids must equal it (1e-6 relative); rotations unit",
+    "minimal bounding ball: NOTHING is assumed about miniball. scipy.optimize.nnls (called by _is_minimal_bounding_ball) "
+    "is an input of the model with the contract weights >= 0 and residual = |a w - b| (checked per call, exact over Q, 1e-9); "
+    "decisions of the acceptance test closer than 1e-11 relative to one of its thresholds are not compared. A returned ball "
+    "is judged by exact (Q) numbers only: max |v - c|^2 <= r^2 (1+1e-6), and r^2 <= (1+1e-6) * the squared radius of an "
+    "independently computed containing ball; 'minimal' is counted as confirmed only inside the exact bracket "
+    "[certLower, maxDistSq] of Lean theorem miniball_bracket",
     "existence of a circum-/in-ball is decided independently (Fractions for lattice inputs, an independent centred "
     "algebraic least-squares fit otherwise); only margin-separated cases decide: relative misfit <= 1e-9 must return, "
     ">= 1e-3 must raise RuntimeError; a returned ball must meet the definition within 2e-4*diameter (the code's own "
@@ -45,6 +56,7 @@ class Rec:
         self.fail_first = fail_first
         self.lstsq = []
         self.mb = []      # (ok: bool, S, (c, r2) | None)
+        self.nnls = []    # per miniball call: list of (a, b, weights, residual) recorded during that attempt
         self.rots = []
         self.other = None
 
@@ -63,6 +75,7 @@ class Rec:
 
         def get_bounding_ball(S, *a, **k):
             S0 = np.array(S, dtype=float)
+            self.nnls.append([])
             if len(self.mb) < self.fail_first:
                 self.mb.append((False, S0, None))
                 raise np.linalg.LinAlgError("forced by the harness")
@@ -76,6 +89,20 @@ class Rec:
                 raise
             self.mb.append((True, S0, (np.array(c, dtype=float), float(r2))))
             return c, r2
+
+        import coxeter.shapes.utils as cu
+        self._cu = cu
+        self._o_nnls = getattr(cu, "nnls", None)
+
+        def nnls_rec(a, b, *args, **kw):
+            w, res = self._o_nnls(a, b, *args, **kw)
+            if self.nnls:
+                self.nnls[-1].append((np.array(a, dtype=float), np.array(b, dtype=float), np.array(w, dtype=float),
+                                      float(res)))
+            return w, res
+
+        if self._o_nnls is not None:
+            cu.nnls = nnls_rec
 
         def rand(*a, **k):
             q = o_r(*a, **k)
@@ -91,6 +118,8 @@ class Rec:
         np.linalg.lstsq = self._orig[0]
         self._mods[1].get_bounding_ball = self._orig[1]
         self._mods[2].rand = self._orig[2]
+        if self._o_nnls is not None:
+            self._cu.nnls = self._o_nnls
         return False
 
 
@@ -132,7 +161,10 @@ def rows_tokens(A, k, b):
 
 
 def lstsq_contract(ctx, what, rec_entry):
-    """normal equations (exact over Q) and resids == |Ax-b|^2. Returns True if the contract holds."""
+    """The lstsq contract as a decidable certificate: the driver solves the normal equations exactly over Q, checks
+    them with `lstsqCert` (Lean: `lstsqCert_iff`, sound and complete for 'least-squares minimiser'), and reports the
+    exact minimum and the exact excess |A(x,r)-b|^2 - min of LAPACK's answer (`lstsq_excess`). Returns None if the
+    contract does not hold, else {"min": exact minimum, "excess": ..., "xstar": ...}."""
     A, b, x, resids = rec_entry
     if A.shape[1] == 3:
         k = np.zeros(len(b))
@@ -140,45 +172,111 @@ def lstsq_contract(ctx, what, rec_entry):
     else:
         k = A[:, 3]
         xr, rr = x[:3], float(x[3])
-    q = ctx.driver.Q("s.normaleq", rows_tokens(A, k, b), np.asarray(xr, dtype=float), float(rr))
-    g = np.array([float(t) for t in q[:4]])
-    ss = float(q[4])
+    q = ctx.driver.Q("s.lstsqmin", rows_tokens(A, k, b), np.asarray(xr, dtype=float), float(rr))
+    cert = bool(q[0])
+    xs = np.array([float(t) for t in q[1:5]])
+    mn = float(q[5])
+    excess = float(q[6])
     nA = float(np.linalg.norm(A))
     nb = float(np.linalg.norm(b))
-    scale = nA * (nA * float(np.linalg.norm(x)) + nb) + 1e-300
-    ok = bool(np.linalg.norm(g) <= 1e-9 * scale)
+    scale2 = (nA * float(np.linalg.norm(x)) + nb) ** 2 + 1e-300
+    ok = cert and 0 <= excess <= 1e-16 * scale2
     if resids.size == 1:
-        ok = ok and abs(float(resids[0]) - ss) <= 1e-6 * max(abs(float(resids[0])), ss) + 1e-18 * nb * nb
+        ok = ok and abs(float(resids[0]) - mn) <= 1e-6 * max(abs(float(resids[0])), mn) + 1e-18 * nb * nb
+    ctx.count("lstsq:exact-certificate:" + ("ok" if ok else "FAILED"))
     if not ok:
-        ctx.contract_failures.append({"contract": "lstsq normal equations / resids", "where": what,
-                                      "grad": g.tolist(), "scale": scale, "resids": resids.tolist(), "sumsq": ss})
-    return ok
+        ctx.contract_failures.append({"contract": "lstsq: exact normal-equation certificate / minimum / resids",
+                                      "where": what, "certificate": cert, "excess": excess, "scale2": scale2,
+                                      "resids": resids.tolist(), "exact_min": mn})
+        return None
+    return {"min": mn, "excess": excess, "xstar": xs}
 
 
-def certify(ctx, pts, c, r2, rel=MB_REL):
-    """support certificate of the ball (c, r2) for pts: lambda by NNLS, verified exactly by the driver (Q)."""
+def support_weights(pts, c, r2, rel=MB_REL):
+    """non-negative weights on the points at distance ~r from c with sum lambda_j (p_j - c) ~ 0 (NNLS); None if none."""
     from scipy.optimize import nnls
     pts = np.asarray(pts, dtype=float)
     c = np.asarray(c, dtype=float).reshape(-1)[:3]
     if not (np.isfinite(r2) and r2 > 0 and np.all(np.isfinite(c))):
-        return False, {"why": "non-finite or non-positive r2", "r2": r2}
+        return None
     d2 = np.sum((pts - c) ** 2, axis=1)
-    tol = rel * r2
-    sup = np.where(np.abs(d2 - r2) <= tol)[0]
+    sup = np.where(np.abs(d2 - r2) <= rel * r2)[0]
     if len(sup) == 0:
-        return False, {"why": "no point on the sphere", "max d2-r2": float(np.max(d2 - r2)), "r2": r2}
+        return None
     r = np.sqrt(r2)
     M = np.vstack([((pts[sup] - c) / r).T, np.ones(len(sup))])
     lam, _ = nnls(M, np.array([0.0, 0.0, 0.0, 1.0]))
     keep = lam > 0
     if not np.any(keep):
-        return False, {"why": "nnls found no support"}
-    supw = L([np.r_[lam[j], pts[sup[j]]] for j in range(len(sup)) if keep[j]])
-    q = ctx.driver.Q("s.cert", L(list(pts)), c, float(r2), supw)
-    slack, dev, sl1, comb, lmin = [float(t) for t in q]
-    ok = (slack <= tol and dev <= tol and abs(sl1) <= 1e-6 and comb <= 1e-10 * r2 and lmin >= 0)
-    return ok, {"slack/r2": slack / r2, "dev/r2": dev / r2, "sum-1": sl1, "comb/r2": comb / r2, "min_lambda": lmin,
-                "support": int(np.sum(keep))}
+        return None
+    return [np.r_[lam[j], pts[sup[j]]] for j in range(len(sup)) if keep[j]]
+
+
+def bracket(ctx, pts, c, sup):
+    """exact (Q) bracket of the squared radius of the minimal ball of pts: (side ok, lower bound from the weighted
+    support, max_i |p_i - c|^2). Lean: `miniball_bracket` (any weights >= 0, any centre)."""
+    q = ctx.driver.Q("s.certbracket", L(list(np.asarray(pts, dtype=float))), np.asarray(c, dtype=float), L(sup or []))
+    return bool(q[0]), float(q[1]), float(q[2])
+
+
+def _circum_minnorm(R):
+    """smallest sphere through the points R (centre in their affine hull): min-norm solution by pinv."""
+    p0 = R[0]
+    if len(R) == 1:
+        return p0.copy(), 0.0
+    A = 2 * (R[1:] - p0)
+    b = np.sum((R[1:] - p0) ** 2, axis=1)
+    x = np.linalg.pinv(A) @ b
+    return p0 + x, float(x @ x)
+
+
+def _welzl(P, order, eps):
+    """move-to-front Welzl with a containment tolerance (independent of the `miniball` package)."""
+    import sys
+    sys.setrecursionlimit(max(sys.getrecursionlimit(), 4 * len(P) + 200))
+
+    def inside(ball, p):
+        c, r2 = ball
+        return float(np.sum((p - c) ** 2)) <= r2 + eps
+
+    def rec(n, R):
+        ball = _circum_minnorm(np.array(R)) if R else (P[order[0]].copy(), 0.0)
+        if len(R) == 4:
+            return ball
+        for i in range(n):
+            p = P[order[i]]
+            if not inside(ball, p):
+                ball = rec(i, R + [p])
+                order.insert(0, order.pop(i))
+        return ball
+
+    return rec(len(order), [])
+
+
+def oracle_minball(ctx, pts):
+    """independent minimal ball of pts, accepted only with an exact bracket: returns (c, LB, U) with
+    LB <= r_opt^2 <= U = max |p - c|^2 (both exact over Q), or None."""
+    P = np.asarray(pts, dtype=float)
+    m = P.mean(axis=0)
+    Y = P - m
+    d2 = float(np.max(np.sum(Y * Y, axis=1))) + 1e-300
+    best = None
+    for attempt in range(4):
+        order = list(range(len(Y)))
+        if attempt:
+            order = [int(i) for i in np.random.default_rng(attempt).permutation(len(Y))]
+        try:
+            c, r2 = _welzl(Y, order, 1e-12 * d2)
+        except (np.linalg.LinAlgError, RecursionError):
+            continue
+        c = c + m
+        sup = support_weights(P, c, float(np.max(np.sum((P - c) ** 2, axis=1))), rel=1e-7)
+        side, lb, ub = bracket(ctx, P, c, sup)
+        if side and ub - lb <= 1e-9 * ub:
+            return c, lb, ub
+        if side and (best is None or ub - lb < best[2] - best[1]):
+            best = (c, lb, ub)
+    return best
 
 
 def seed_globals(seed):
@@ -326,6 +424,7 @@ def check_circum(ctx, case, cls, attr, p, verts, normal, Ls, d):
         return
     A, b, x, resids = rec.lstsq[0]
     thresh = 4 if three else 3
+    rows_atol = [None]
 
     def correspondence():
         # ---- B: the system, the guard and the result
@@ -338,6 +437,7 @@ def check_circum(ctx, case, cls, attr, p, verts, normal, Ls, d):
             ctx.disagree("b.circumsys", case, e.kind)
             return
         atol = rows[-1]
+        rows_atol[0] = atol
         R = np.array(rows[:-1]).reshape(-1, 5)
         if R.shape[0] != A.shape[0] or not (ctx.close_enough(R[:, :3], A, Ls) and ctx.close_enough(R[:, 4], b, Ls * d)):
             ctx.disagree("b.circumsys:rows", case, [R.shape, A.shape])
@@ -356,8 +456,11 @@ def check_circum(ctx, case, cls, attr, p, verts, normal, Ls, d):
     rg = call_scalar(lambda: getattr(p, attr + "_radius"))
     if (impl[0] == "ok") != (rg[0] == "ok") or (impl[0] == "ok" and not ctx.close_enough(rg[1], impl[1], Ls, 1e-12)):
         ctx.fail(sig0 + "_radius:getter", "the _radius getter disagrees with the ball", case, [impl[:2], rg])
-    if not lstsq_contract(ctx, sig0, rec.lstsq[0]):
+    check_radiusof(ctx, case, impl, rg)
+    lc = lstsq_contract(ctx, sig0, rec.lstsq[0])
+    if lc is None:
         return
+    refusal_iff_exact(ctx, case, "b." + attr, impl, len(verts), thresh, rows_atol[0], lc["min"])
     # ---- C: the definition, decided independently
     if three:
         c_or, r_or, rho = sphere_fit(verts)
@@ -404,6 +507,22 @@ def check_circum(ctx, case, cls, attr, p, verts, normal, Ls, d):
         ctx.fail(sig0 + ":raises-other", "raised %s" % impl[1], case, impl[2])
 
 
+def refusal_iff_exact(ctx, case, op, impl, nverts, thresh, atol, exact_min):
+    """B for the theorems `*_raises_iff`: with more than `thresh` vertices the implementation raises RuntimeError iff
+    the EXACT least-squares minimum (Q) exceeds the model's tolerance (decision cases near the threshold dropped)."""
+    if atol is None or nverts <= thresh:
+        return
+    if abs(exact_min - atol) <= 1e-6 * atol:
+        ctx.skipped_near_boundary += 1
+        return
+    expect = exact_min > atol
+    got = impl[0] == "exc" and impl[1] == "RuntimeError"
+    ctx.count("refusal-iff-exact-residual:" + ("raise" if expect else "return"))
+    if got != expect and not (impl[0] == "exc" and impl[1] == "ValueError" and not expect):
+        ctx.disagree(op + ":raises-iff-exact-residual-above-atol", case,
+                     {"exact_min": exact_min, "atol": atol, "impl": impl[:2]})
+
+
 def call_scalar(fn):
     try:
         with warnings.catch_warnings():
@@ -427,6 +546,7 @@ def check_in(ctx, case, cls, attr, p, verts, Ls, d, planes_or, model_sys, model_
         return
     A, b, x, resids = rec.lstsq[0]
     thresh = 4 if cls.endswith("Polyhedron") else 3
+    rows_atol = [None]
 
     def correspondence():
         try:
@@ -435,6 +555,7 @@ def check_in(ctx, case, cls, attr, p, verts, Ls, d, planes_or, model_sys, model_
             ctx.disagree("b.insys", case, e.kind)
             return
         atol = rows[-1]
+        rows_atol[0] = atol
         R = np.array(rows[:-1]).reshape(-1, 5)
         if R.shape[0] != A.shape[0] or not (ctx.close_enough(R[:, :4], A, 1.0) and ctx.close_enough(R[:, 4], b, Ls)):
             ctx.disagree("b.insys:rows", case, [R.shape, A.shape])
@@ -449,8 +570,11 @@ def check_in(ctx, case, cls, attr, p, verts, Ls, d, planes_or, model_sys, model_
     rg = call_scalar(lambda: getattr(p, attr + "_radius"))
     if (impl[0] == "ok") != (rg[0] == "ok") or (impl[0] == "ok" and not ctx.close_enough(rg[1], impl[1], Ls, 1e-12)):
         ctx.fail(sig0 + "_radius:getter", "the _radius getter disagrees with the ball", case, [impl[:2], rg])
-    if not lstsq_contract(ctx, sig0, rec.lstsq[0]):
+    check_radiusof(ctx, case, impl, rg)
+    lc = lstsq_contract(ctx, sig0, rec.lstsq[0])
+    if lc is None:
         return
+    refusal_iff_exact(ctx, case, "b." + attr, impl, len(verts), thresh, rows_atol[0], lc["min"])
     if planes_or is None:
         return
     N, D = planes_or
@@ -508,10 +632,19 @@ def check_minimal_bounding(ctx, case, cls, attr, p, verts, Ls, d, fail_first, se
         return
     # ---- B
     outcomes = []
-    for ok, S, res in rec.mb:
-        outcomes.append([1, res[0], res[1]] if ok else [0, np.zeros(3), 0.0])
-    mod = model(ctx, "b.minbound", L(list(verts)), L(outcomes), L(list(rec.rots)))
-    compare(ctx, "b.minbound", case, impl, mod, Ls)
+    near = False
+    for k, (ok, S, res) in enumerate(rec.mb):
+        calls = rec.nnls[k] if k < len(rec.nnls) else []
+        resid = calls[0][3] if calls else float("inf")
+        outcomes.append([1, res[0], res[1], resid] if ok else [0, np.zeros(3), 0.0, float("inf")])
+        if ok:
+            near = check_acceptance(ctx, case, sig0, S, res, calls,
+                                    accepted=(k == len(rec.mb) - 1 and impl[0] == "ok")) or near
+    if near:
+        ctx.skipped_near_boundary += 1
+    else:
+        mod = model(ctx, "b.minbound", L(list(verts)), L(outcomes), L(list(rec.rots)))
+        compare(ctx, "b.minbound", case, impl, mod, Ls)
     for k, (ok, S, res) in enumerate(rec.mb):
         if k == 0:
             same = S.shape == verts.shape and bool(np.array_equal(S, verts))
@@ -531,13 +664,6 @@ def check_minimal_bounding(ctx, case, cls, attr, p, verts, Ls, d, fail_first, se
             ctx.contract_failures.append({"contract": "rowan.random.rand unit", "got": q.tolist()})
             good = False
     n_fail = sum(1 for ok, _, _ in rec.mb if not ok)
-    if rec.mb and rec.mb[-1][0]:
-        S, (c, r2) = rec.mb[-1][1], rec.mb[-1][2]
-        okc, det = certify(ctx, S, c, r2)
-        if not okc:
-            ctx.contract_failures.append({"contract": "miniball minimal-ball certificate", "where": sig0, "detail": det})
-            ctx.count("miniball:contract-failed")
-            good = False
     # ---- C
     natural_fail = n_fail - min(fail_first, len(rec.mb))
     if impl[0] == "exc":
@@ -555,18 +681,148 @@ def check_minimal_bounding(ctx, case, cls, attr, p, verts, Ls, d, fail_first, se
     if not good:
         return
     r, c = impl[1], impl[2]
-    okc, det = certify(ctx, verts, c, r * r)
-    if not okc:
-        cont = float(np.max(np.linalg.norm(verts - c, axis=1)) - r)
-        clause = "contains-vertices" if cont > 1e-5 * r else "minimal"
-        ctx.fail(sig0 + ":" + clause + (":retried" if n_fail else ""),
-                 "returned ball is not the minimal ball containing every vertex", case, [det, r, c, n_fail])
+    judge_minimal_ball(ctx, case, sig0, verts, r, c, rec, n_fail)
     # the getter runs miniball again: same seeds and same forced failures give the identical run
     seed_globals(seed)
     with Rec(fail_first):
         rg = call_scalar(lambda: getattr(p, attr + "_radius"))
     if rg[0] != "ok" or not ctx.close_enough(rg[1], r, Ls, 1e-12):
         ctx.fail(sig0 + "_radius:getter", "the _radius getter disagrees with the ball", case, [r, rg])
+    # deprecated alias (bounding_sphere / bounding_circle): the same run again
+    alias = "bounding_" + attr.rsplit("_", 1)[1]
+    seed_globals(seed)
+    with Rec(fail_first):
+        al = call(lambda: getattr(p, alias))
+    if al[0] != "ok" or not (ctx.close_enough(al[1], r, Ls, 1e-12) and ctx.close_enough(al[2], c, Ls, 1e-12)):
+        ctx.fail("%s.%s:alias" % (cls, alias), "the deprecated alias differs from " + attr, case, [al[:3], r, c])
+    check_radiusof(ctx, case, impl, rg)
+
+
+def check_acceptance(ctx, case, sig0, S, res, calls, accepted):
+    """B + contract for one `_is_minimal_bounding_ball(S, c, r2)` call of the repaired code (da3be45): the model's test
+    (`Balls.isMinimalBoundingBall`, fed the residual nnls reported) must decide as the implementation did; whether nnls
+    is reached and the boundary points must agree; nnls contract: weights >= 0 and residual^2 = |a w - b|^2 (exact, Q).
+    Returns True when a decision of the test is too close to one of its thresholds to be compared."""
+    c, r2 = res
+    if not (np.isfinite(r2) and np.all(np.isfinite(c))):
+        return True
+    d2 = np.sum((S - c) ** 2, axis=1)
+    if r2 > 0 and (abs(float(np.max(d2)) - r2 * (1 + 1e-8)) <= 1e-11 * r2
+                   or np.any(np.abs(d2 - r2 * (1 - 1e-6)) <= 1e-11 * r2)):
+        return True
+    resid = calls[0][3] if calls else float("inf")
+    if calls and abs(resid - 1e-6) <= 1e-8:
+        return True
+    q = ctx.driver.F("b.accept", L(list(S)), c, float(r2), resid)
+    acc, reach, nb = bool(q[0]), bool(q[1]), int(q[2])
+    bd = np.array(q[3:], dtype=float).reshape(-1, 3)
+    ctx.count("acceptance-test:" + ("accepted" if accepted else "rejected"))
+    if acc != accepted or reach != bool(calls) or len(calls) > 1:
+        ctx.disagree("b.accept", case, {"impl accepted": accepted, "model": acc, "nnls called": len(calls),
+                                          "model reaches nnls": reach, "c": c, "r2": r2})
+        return False
+    if calls:
+        a, b, w, _ = calls[0]
+        if a.shape != (4, nb) or not ctx.close_enough(a[:3].T, (bd - c) / np.sqrt(r2), 1.0, 1e-9):
+            ctx.disagree("b.accept:nnls-system", case, [a.shape, nb])
+            return False
+        exact = float(ctx.driver.Q("s.nnlsresid", L(list(bd)), c, float(r2), L([float(t) for t in w]))[0])
+        ok = bool(np.all(w >= 0)) and resid >= 0 and abs(resid - np.sqrt(max(exact, 0.0))) <= 1e-9
+        ctx.count("nnls:contract:" + ("ok" if ok else "FAILED"))
+        if not ok:
+            ctx.contract_failures.append({"contract": "nnls: weights >= 0, residual = |a w - b|", "where": sig0,
+                                          "residual": resid, "exact |a w - b|": float(np.sqrt(max(exact, 0.0))),
+                                          "min weight": float(np.min(w)) if len(w) else None})
+    return False
+
+
+def judge_minimal_ball(ctx, case, sig0, verts, r, c, rec, n_fail):
+    """C for a returned minimal bounding ball (r, c). A failure is reported only with an explicit witness: a vertex
+    outside the ball, or a strictly smaller ball containing every vertex (exact over Q). A pass is counted as
+    confirmed only when r^2 lies inside the exact bracket [LB, U] of `miniball_bracket` up to MB_REL."""
+    tol = MB_REL
+    r2 = r * r
+    _, _, u_impl = bracket(ctx, verts, c, None)           # exact max |v - c|^2
+    opt = oracle_minball(ctx, verts)
+    not_containing = u_impl > r2 * (1 + tol)
+    not_minimal = opt is not None and r2 > opt[2] * (1 + tol)
+    if not (not_containing or not_minimal):
+        if opt is not None and opt[2] - opt[1] <= 1e-9 * opt[2] and r2 <= opt[1] * (1 + tol):
+            ctx.count("miniball:minimal-confirmed-by-exact-bracket")
+        else:
+            # fall back on a certificate for the returned ball itself
+            sup = support_weights(verts, c, r2)
+            side, lb, ub = bracket(ctx, verts, c, sup)
+            if side and r2 <= lb * (1 + tol):
+                ctx.count("miniball:minimal-confirmed-by-exact-bracket")
+            else:
+                ctx.count("miniball:minimality-unconfirmed(no certified optimum available)")
+        return
+    # is the result miniball itself returned (for the points it was given) already wrong?  Then coxeter passed an
+    # unverified answer of its dependency on: the known finding. Otherwise the fault is coxeter's own (rotation, ...).
+    raw_bad = False
+    if rec is not None and rec.mb and rec.mb[-1][0]:
+        S, (c_raw, r2_raw) = rec.mb[-1][1], rec.mb[-1][2]
+        u_raw = float(np.max(np.sum((S - c_raw) ** 2, axis=1)))
+        raw_bad = (u_raw > r2_raw * (1 + tol)) or (opt is not None and r2_raw > opt[2] * (1 + tol))
+    detail = {"r": r, "c": c, "max|v-c|^2 (exact)": u_impl, "r^2": r2,
+              "optimum r^2 in": None if opt is None else [opt[1], opt[2]],
+              "smaller containing ball": None if opt is None else {"c": opt[0], "r": float(np.sqrt(opt[2]))},
+              "miniball attempts": len(rec.mb) if rec is not None else None, "failed attempts": n_fail}
+    if raw_bad:
+        ctx.count("miniball:unverified-wrong-result")
+        ctx.fail(sig0 + ":miniball-result-not-verified",
+                 "the ball returned by the miniball package for the points it was given is %s, and coxeter accepted "
+                 "it" % ("missing a vertex" if u_impl > r2 * (1 + tol) else "not minimal"), case, detail)
+        return
+    clause = "contains-vertices" if not_containing else "minimal"
+    ctx.fail(sig0 + ":" + clause + (":retried" if n_fail else ""),
+             "returned ball is not the minimal ball containing every vertex", case, detail)
+
+
+KIND_CODE = {"RuntimeError": 0, "ValueError": 1, "NotImplementedError": 2}
+
+
+def check_radiusof(ctx, case, ball, getter):
+    """B for the glue `radiusOf`: what the `<ball>_radius` getter gives, from what the ball getter gave."""
+    try:
+        if ball[0] == "ok":
+            m = ("ok", float(ctx.driver.F("b.radiusof", 1, float(ball[1]), np.asarray(ball[2], dtype=float))[0]))
+        elif ball[1] in KIND_CODE:
+            ctx.driver.F("b.radiusof", 0, KIND_CODE[ball[1]])
+            m = ("ok", None)
+        else:
+            return
+    except ModelRaise as e:
+        m = ("exc", e.kind)
+    if m[0] != getter[0] or (m[0] == "exc" and m[1] != getter[1]) or (m[0] == "ok" and m[1] != getter[1]):
+        ctx.disagree("b.radiusof", case, ["ball getter", ball[:2], "radius getter", getter, "model", m])
+
+
+def same_result(a, t):
+    if a[0] != t[0]:
+        return False
+    if a[0] == "exc":
+        return a[1] == t[1]
+    return a[1] == t[1] and bool(np.array_equal(a[2], t[2])) and a[3] == t[3]
+
+
+def check_glue(ctx, case, cls, p, aliases, not_implemented):
+    """deprecated aliases return what the new getter returns; getters the class does not override raise
+    NotImplementedError (model: `deprecatedAlias`, `notImplemented`), and the `_radius` getters follow (`radiusOf`)."""
+    for alias, target in aliases:
+        a = call(lambda: getattr(p, alias))
+        t = call(lambda: getattr(p, target))
+        ctx.count("glue:alias")
+        if not same_result(a, t):
+            ctx.fail("%s.%s:alias" % (cls, alias), "the deprecated alias differs from " + target, case, [a[:3], t[:3]])
+    for attr in not_implemented:
+        b = call(lambda: getattr(p, attr))
+        rg = call_scalar(lambda: getattr(p, attr + "_radius"))
+        ctx.count("glue:not-implemented")
+        if b[0] != "exc" or b[1] != "NotImplementedError":
+            ctx.disagree("b.notimplemented:%s.%s" % (cls, attr), case, b[:2])
+        check_radiusof(ctx, case, b, rg)
 
 
 # =========================================================================== solids
@@ -630,6 +886,13 @@ def eval_polyhedron(ctx, case):
                 ctx.fail(cls + ".maximal_centered_bounded_sphere_radius:getter", "getter disagrees", case, [r, rg])
         else:
             ctx.fail(cls + ".maximal_centered_bounded_sphere:raises", "raised %s for a convex solid" % impl[1], case, impl[2])
+        check_glue(ctx, case, cls, p,
+                   [("insphere_from_center", "maximal_centered_bounded_sphere"),
+                    ("circumsphere_from_center", "minimal_centered_bounding_sphere")],
+                   ["maximal_bounded_sphere"])
+    else:
+        check_glue(ctx, case, cls, p, [],
+                   ["maximal_bounded_sphere", "minimal_centered_bounding_sphere", "maximal_centered_bounded_sphere"])
     # ---------------------------------------------------- circumsphere
     check_circum(ctx, case, cls, "circumsphere", p, verts, None, Ls, d)
     # ---------------------------------------------------- insphere
@@ -647,6 +910,34 @@ def eval_polyhedron(ctx, case):
     # ---------------------------------------------------- minimal bounding sphere
     check_minimal_bounding(ctx, case, cls, "minimal_bounding_sphere", p, verts, Ls, d,
                            int(case.get("fail_first", 0)), int(case.get("seed", 0)))
+    exact_box_ball(ctx, case, cls, p, verts, Ls)
+
+
+def exact_box_ball(ctx, case, cls, p, verts, Ls):
+    """integer boxes: centre (half-integers) and r^2 are exact doubles, the support certificate (weights 1/2 on two
+    opposite corners) is verified by the EXACT checker `certExact` over Q (Lean: `miniball_checker_sound`), and the
+    implementation's ball is compared with that exact optimum."""
+    if not (case.get("lattice") and len(verts) == 8 and np.all(verts == np.round(verts))):
+        return
+    lo, hi = verts.min(axis=0), verts.max(axis=0)
+    corners = {tuple(v) for v in verts.tolist()}
+    if corners != {(x, y, z) for x in (lo[0], hi[0]) for y in (lo[1], hi[1]) for z in (lo[2], hi[2])} or np.any(hi == lo):
+        return
+    c = (lo + hi) / 2
+    r2 = float(np.sum(((hi - lo) / 2) ** 2))
+    ok = bool(ctx.driver.Q("s.certexact", L(list(verts)), c, r2, L([np.r_[0.5, lo], np.r_[0.5, hi]]))[0])
+    ctx.count("miniball:exact-checker(certExact over Q):" + ("accepts" if ok else "REJECTS"))
+    if not ok:
+        ctx.fail("oracle:self-check", "the exact certificate of an integer box was rejected", case, [c, r2])
+        return
+    seed_globals(int(case.get("seed", 0)))
+    b = call(lambda: p.minimal_bounding_sphere)
+    if b[0] == "ok" and not (ctx.close_enough(b[1] ** 2, r2, r2, 1e-9) and ctx.close_enough(b[2], c, Ls, 1e-9)):
+        # (a ball that misses vertices is the known finding and has been reported above)
+        u = float(np.max(np.sum((verts - b[2]) ** 2, axis=1)))
+        if u <= b[1] ** 2 * (1 + MB_REL):
+            ctx.fail(cls + ".minimal_bounding_sphere:value:exact-box", "differs from the exactly certified minimal ball",
+                     case, [b[1], b[2], np.sqrt(r2), c])
 
 
 # =========================================================================== polygons
@@ -710,6 +1001,13 @@ def eval_polygon(ctx, case):
                 ctx.fail("ConvexPolygon.maximal_centered_bounded_circle_radius:getter", "getter disagrees", case, [r, rg])
         else:
             ctx.fail("ConvexPolygon.maximal_centered_bounded_circle:raises", "raised %s" % impl[1], case, impl[2])
+        check_glue(ctx, case, "ConvexPolygon", p, [("incircle_from_center", "maximal_centered_bounded_circle")],
+                   ["maximal_bounded_circle"])
+    elif clsname != "ConvexPolygon":
+        # the centred balls are defined through distances to edge LINES, which is right only for convex polygons:
+        # the general Polygon does not offer them
+        check_glue(ctx, case, "Polygon", p, [],
+                   ["maximal_bounded_circle", "minimal_centered_bounding_circle", "maximal_centered_bounded_circle"])
     # ---------------------------------------------------- circumcircle
     check_circum(ctx, case, "Polygon", "circumcircle", p, verts, pn, Ls, d)
     # ---------------------------------------------------- incircle
@@ -780,6 +1078,9 @@ def eval_curved(ctx, case):
         rg = call_scalar(lambda: getattr(s, attr + "_radius"))
         if rg[0] != "ok" or rg[1] != impl[1]:
             ctx.fail(sig + "_radius:getter", "getter disagrees", case, [impl[1], rg])
+        check_radiusof(ctx, case, impl, rg)
+    if kind == "Circle":
+        check_glue(ctx, case, "Circle", s, [("maximal_bounding_circle", "maximal_bounded_circle")], [])
     # sampled definition: boundary points lie in the bounding ball and outside/on the bounded ball
     t = np.linspace(0, 2 * np.pi, 17)[:-1]
     if two:
@@ -973,11 +1274,30 @@ def make_polyhedron_case(rng, ctx, mode):
         v2, info = gen.place(rng, v, permute=False)
         info = dict(info, kind="nonconvex:" + ("edge-flip-cospherical" if co else "dent"))
         return {"family": "polyhedron", "vertices": v2.tolist(), "faces": faces, "info": info, "seed": seed}
+    if mode == "xscale":
+        # exact power-of-two scalings far outside 1e-3..1e3: existence decisions must not depend on the unit of length
+        name, v = special_solid(rng)
+        k = int(rng.integers(-14, 15))
+        v = np.asarray(v, dtype=float)[rng.permutation(len(v))] * (2.0 ** k)
+        if not gen.in_convex_position(v):
+            return None
+        return {"family": "polyhedron", "vertices": v.tolist(), "seed": seed,
+                "info": {"kind": "xscale:" + name, "scale": 2.0 ** k, "rotated": False}}
     raise ValueError(mode)
 
 
 def make_polygon_case(rng, ctx, mode):
     seed = int(rng.integers(2 ** 31))
+    if mode == "xscale":
+        kind, p2 = special_polygon2d(rng)
+        p2 = np.asarray(p2, dtype=float)
+        a2 = float(np.sum(p2[:, 0] * np.roll(p2[:, 1], -1) - np.roll(p2[:, 0], -1) * p2[:, 1]))
+        if a2 < 0:
+            p2 = p2[::-1].copy()
+        k = int(rng.integers(-26, 27))
+        v = np.c_[p2, np.zeros(len(p2))] * (2.0 ** k)
+        return {"family": "polygon", "vertices": v.tolist(), "normal": None, "cls": "Polygon", "seed": seed,
+                "info": {"kind": "xscale:" + kind, "scale": 2.0 ** k, "orient": "default", "plane": "xy", "n": len(v)}}
     if mode == "c04":
         kind, p2 = gen.polygon2d(rng)
     else:
@@ -1021,6 +1341,113 @@ def make_curved_case(rng, ctx):
     return {"family": "curved", "kind": kind, "axes": ax, "center": cen.tolist(), "info": {"tie": tie}}
 
 
+PRISM3_ROT = [[0.9999999999999998, 0.4999999999999999, 0.0], [-0.49999999999999967, 0.4999999999999999, 0.8660254037844385],
+              [-0.5000000000000003, 0.49999999999999994, -0.8660254037844382], [0.9999999999999998, -0.4999999999999999, 0.0],
+              [-0.49999999999999967, -0.4999999999999999, 0.8660254037844385],
+              [-0.5000000000000003, -0.49999999999999994, -0.8660254037844382]]
+
+
+def make_sweep_case(rng, ctx, nseeds):
+    """one cospherical vertex set (where Welzl's recursion inside `miniball` meets degenerate supports) in a random
+    rigid placement, evaluated under many states of Python's global `random` (which `miniball` draws its pivots from)."""
+    import rowan
+    k = int(rng.integers(10))
+    n = int(rng.integers(3, 9))
+    shape = "polyhedron"
+    if k >= 8:
+        # generic (non-cospherical) prism over a polygon inscribed in an ellipse: miniball was seen to return
+        # containing but NOT minimal balls here (about 1 call in 1500)
+        m = int(rng.integers(5, 13))
+        t = 2 * np.pi * np.arange(m) / m + float(rng.uniform(0, 1))
+        a, b, h = np.exp(rng.uniform(-1, 1, size=3))
+        base = np.c_[a * np.cos(t), b * np.sin(t)]
+        name, v = "elliptic-prism", np.vstack([np.c_[base, -h / 2 * np.ones(m)], np.c_[base, h / 2 * np.ones(m)]])
+    elif k == 0:
+        name, v = "prism", _regular_prism(n, float(np.exp(rng.uniform(-1, 1))))
+    elif k == 1:
+        name, v = "prism3", _regular_prism(3, float(np.exp(rng.uniform(-1, 1))))
+    elif k == 2:
+        name, v = "box", np.array([[x, y, z] for x in (0, 1) for y in (0, 1) for z in (0, 1)], dtype=float) \
+            * np.exp(rng.uniform(-1, 1, size=3))
+    elif k == 3:
+        h = float(np.exp(rng.uniform(-1, 1)))
+        name, v = "antiprism", np.vstack([np.c_[gen.ngon(n), -h * np.ones(n)],
+                                          np.c_[gen.ngon(n, phase=np.pi / n), h * np.ones(n)]])
+    elif k == 4:
+        tabs = [t for t in gen.tabulated_solids() if t[0] in ("platonic", "archimedean", "prism_antiprism")
+                and len(t[2]) <= 30]
+        fam, nm, v = tabs[int(rng.integers(len(tabs)))]
+        name = "tabulated:" + fam
+    elif k == 5:
+        shape, name = "polygon", "regular-ngon"
+        v = np.c_[gen.ngon(max(n, 4), phase=float(rng.uniform(0, 1))), np.zeros(max(n, 4))]
+    elif k == 6:
+        shape, name = "polygon", "rectangle"
+        w, h = np.exp(rng.uniform(-1, 1, size=2))
+        v = np.array([[0, 0, 0], [w, 0, 0], [w, h, 0], [0, h, 0]])
+    else:
+        shape, name = "polygon", "cyclic"
+        t = np.sort(rng.uniform(0, 2 * np.pi, size=n + 2))
+        v = np.c_[np.cos(t), np.sin(t), np.zeros(len(t))]
+    v = np.asarray(v, dtype=float)
+    mode = int(rng.integers(3))
+    if mode == 0:
+        q = np.array([1.0, 0, 0, 0])
+    elif mode == 1:
+        ax = np.eye(3)[int(rng.integers(3))]
+        q = np.r_[np.cos(np.pi / 4), np.sin(np.pi / 4) * ax]           # quarter turn about a coordinate axis
+    else:
+        q = rng.normal(size=4)
+        q /= np.linalg.norm(q)
+    v = rowan.rotate(q, v) * float(10 ** rng.uniform(-1, 1) if rng.random() < 0.3 else 1.0) \
+        + (rng.uniform(-2, 2, size=3) if rng.random() < 0.5 else 0.0)
+    if shape == "polyhedron" and not gen.in_convex_position(v):
+        return None
+    return {"family": "sweep", "shape": shape, "vertices": v.tolist(),
+            "seeds": [int(t) for t in rng.integers(2 ** 31, size=nseeds)],
+            "info": {"kind": "sweep:" + name, "rotation": ["none", "quarter-turn", "random"][mode]}}
+
+
+def eval_sweep(ctx, case):
+    from coxeter.shapes import ConvexPolyhedron, Polygon
+    v = np.array(case["vertices"], dtype=float)
+    three = case["shape"] == "polyhedron"
+    with warnings.catch_warnings():
+        warnings.simplefilter("ignore")
+        try:
+            p = ConvexPolyhedron(v) if three else Polygon(v)
+        except Exception as e:  # noqa: BLE001
+            ctx.count("ctor-raised:" + exc_kind(e))
+            return
+    verts = np.array(p.vertices, dtype=float)
+    attr = "minimal_bounding_sphere" if three else "minimal_bounding_circle"
+    opt = oracle_minball(ctx, verts)
+    if opt is None or opt[2] - opt[1] > 1e-9 * opt[2]:
+        ctx.count("sweep:oracle-unavailable")
+        return
+    hits = 0
+    for seed in case["seeds"]:
+        seed_globals(seed)
+        res = call(lambda: getattr(p, attr))
+        ctx.count("sweep:calls")
+        if res[0] == "ok":
+            r2 = res[1] ** 2
+            u = float(np.max(np.sum((verts - res[2]) ** 2, axis=1)))
+            if u <= r2 * (1 + MB_REL / 2) and r2 <= opt[1] * (1 + MB_REL / 2):
+                continue
+        # anything else: the full evaluation of this (vertices, seed) as a case of its own (replayable)
+        hits += 1
+        if hits > 3:
+            continue
+        sub = {"family": "polyhedron" if three else "polygon", "vertices": verts.tolist(), "seed": int(seed),
+               "info": {"kind": "sweep-hit:" + case["info"]["kind"].split(":", 1)[1]}}
+        if not three:
+            sub.update({"normal": None, "cls": "Polygon"})
+        ctx.case(sub)
+        ctx.count("sweep:hits")
+        eval_case(ctx, sub)
+
+
 # fixed regression witnesses (defects repaired in /repo: they must be caught if they return)
 def witnesses():
     cube = [[x, y, z] for x in (0.0, 1.0) for y in (0.0, 1.0) for z in (0.0, 1.0)]
@@ -1051,6 +1478,16 @@ def witnesses():
         out.append({"family": "polygon", "vertices": sq_off, "normal": None, "cls": "Polygon", "fail_first": k,
                     "info": {"kind": "witness:forced-%d-failures" % k}, "seed": 40 + k})
     out.append({"family": "curved", "kind": "Circle", "axes": [1.5], "center": [1, 2, 0], "info": {"tie": "witness"}})
+    # repaired in da3be45 (must be caught if it returns): `miniball` returns the circumsphere of one rectangular side face
+    # of this rotated triangular prism (two vertices 1.58 r away) when Python's global `random` is seeded with 14;
+    # coxeter used to pass it on, now `_is_minimal_bounding_ball` rejects it and the loop retries
+    out.append({"family": "polyhedron", "vertices": PRISM3_ROT, "info": {"kind": "witness:miniball-unverified-prism"},
+                "seed": 14})
+    out.append({"family": "polyhedron", "vertices": PRISM3_ROT, "info": {"kind": "witness:miniball-prism-good-seed"},
+                "seed": 0})
+    out.append({"family": "polyhedron", "vertices": PRISM3_ROT,
+                "faces": [[0, 2, 1], [3, 4, 5], [0, 3, 5, 2], [1, 2, 5, 4], [0, 1, 4, 3]],
+                "info": {"kind": "witness:miniball-unverified-prism-general-class"}, "seed": 14})
     return out
 
 
@@ -1074,6 +1511,8 @@ def eval_case(ctx, case):
         eval_polyhedron(ctx, case)
     elif fam == "polygon":
         eval_polygon(ctx, case)
+    elif fam == "sweep":
+        eval_sweep(ctx, case)
     else:
         eval_curved(ctx, case)
 
@@ -1083,7 +1522,8 @@ def run(ctx):
     cases = list(witnesses())
     plan = [("polyhedron", "c01", ctx.budget(30, 600)), ("polyhedron", "special", ctx.budget(30, 600)),
             ("polyhedron", "lattice", ctx.budget(10, 200)), ("polyhedron", "nonconvex", ctx.budget(10, 200)),
-            ("polygon", "c04", ctx.budget(40, 800)), ("polygon", "special", ctx.budget(50, 1000))]
+            ("polygon", "c04", ctx.budget(40, 800)), ("polygon", "special", ctx.budget(50, 1000)),
+            ("polyhedron", "xscale", ctx.budget(14, 280)), ("polygon", "xscale", ctx.budget(20, 400))]
     for fam, mode, n in plan:
         for _ in range(n):
             c = make_polyhedron_case(rng, ctx, mode) if fam == "polyhedron" else make_polygon_case(rng, ctx, mode)
@@ -1103,6 +1543,10 @@ def run(ctx):
                       "info": dict(info, kind="tabulated:" + fam, name=name)})
     for _ in range(ctx.budget(40, 800)):
         cases.append(make_curved_case(rng, ctx))
+    for _ in range(ctx.budget(16, 160)):
+        c = make_sweep_case(rng, ctx, 40 if ctx.tier == "quick" else 100)
+        if c is not None:
+            cases.append(c)
     for case in cases:
         ctx.case(case)
         eval_case(ctx, case)
